@@ -110,7 +110,7 @@ func cmdCheck(args []string) int {
 		fmt.Printf("ENGINE-ERROR property=%s %v\n", id, err)
 		return 2
 	}
-	timeout := 15
+	timeout := 30 // quick: per-obligation limit (raced solvers); a few obligations of redirectToIDP need ~15 s on cvc5
 	if pc.QuickT > 0 {
 		timeout = pc.QuickT
 	}
@@ -317,7 +317,7 @@ func cmdCheck(args []string) int {
 			}
 		}
 	}
-	if len(retry) > 0 && len(retry) <= 8 {
+	if len(retry) > 0 && len(retry) <= 16 {
 		ropt := dopt
 		ropt.TimeoutS = timeout * 3
 		ropt.Workers = 1
